@@ -92,7 +92,7 @@ def exc_sig(e):
     if sig.endswith((":compileTranslatedTree", ":astToSource")):
         # raised by a builtin (compile / ast.unparse) on the tree Scenic produced: the frame says
         # nothing about the cause, the message does
-        msg = re.sub(r"<[^>]*>|0x[0-9a-f]+|\d+", "N", str(e))
+        msg = re.sub(r"<[^>]*>|stageA\.scenic|0x[0-9a-f]+|\d+", "N", str(e))
         sig += ":" + re.sub(r"'[^']*'", "Q", msg)[:50]
     return sig
 
